@@ -6,6 +6,8 @@
 //	schema  x<b0>  n<nops>  { op }
 //	op := n<kind 1 set|2 unset|3 setmany> path [x<sub bytes>] | n3 n<#> { n<field id> x<sub bytes> }
 //	      n<err 0 ok|1 error|2 panic> n<exist> x<result bytes> n<reference accepted 0|1>
+//	      x<the ORIGINAL input slice now> x<Raw() of a second root value made over the input before the edits, now>
+//	      x<the slice Raw() returned BEFORE this op, now>      (buffers handed out earlier are immutable values)
 //	path := n<#steps> { n1 n<id> | n2 x<name> | n3 n<index> | n4 x<str key> | n5 n<int key (Go int)> }
 // check 1002  x<b0> n<recurse> n<err> x<marshalled> n<reference accepted>
 // check 1003  tree REUSE: schema x<bA> x<bB> n<recurse A> n<recurse B> n<mode 0 same PathNode|1 pooled node|2 A,B,A on one node>
@@ -85,8 +87,33 @@ type c10Gen struct {
 var c10Sizes = []int{0, 1, 126, 127, 128, 129, 16382, 16383, 16384, 16385}
 
 // a sub value for one element of field f (singular field value, list element, map value) and its node
-func (g *c10Gen) subValue(f *pgField, depth int) (generic.Node, []byte) {
+// old: the value being replaced (nil when none): often a replacement of the SAME encoded size is produced (fixed-width
+// kinds always are; equal-length strings / bytes; varints of the same width), the case in which an implementation
+// could be tempted to overwrite in place
+func (g *c10Gen) subValue(f *pgField, depth int, old *pgVal) (generic.Node, []byte) {
 	r := g.r
+	if old != nil && f.Kind != pgKMessage && r.chance(45) {
+		switch {
+		case pgIsBytesKind(f.Kind) && old.Tag == 3:
+			var p []byte
+			if f.Kind == pgKString {
+				p = g.vg.utf8(len(old.B))
+			} else {
+				p = r.bytes(len(old.B))
+			}
+			b := append(c10Varint(nil, uint64(len(p))), p...)
+			return generic.NewNode(proto.Type(f.Kind), b), b
+		case old.Tag == 2 && pgWireType(f.Kind) == 0:
+			// same varint width: only the low bits of the first byte change
+			b := append([]byte(nil), c10ScalarBytes(f.Kind, old)...)
+			if f.Kind == pgKBool {
+				b[0] ^= 1
+			} else {
+				b[0] ^= byte(1 + r.intn(63))
+			}
+			return generic.NewNode(proto.Type(f.Kind), b), b
+		}
+	}
 	switch {
 	case f.Kind == pgKMessage:
 		var sv *pgVal
@@ -133,6 +160,7 @@ type c10Target struct {
 	whole bool     // the path addresses the whole field (singular value, or a whole list / map)
 	depth int
 	exist bool
+	old   *pgVal // the existing element the path addresses (nil when absent / a whole list or map)
 }
 
 func (g *c10Gen) fieldStep(f *pgField) c10Step {
@@ -200,7 +228,7 @@ func (g *c10Gen) walk(cur *pgVal, msgName string, wantDepth int) *c10Target {
 				cur, m = fv, g.c.S.msg(f.MsgName)
 				continue
 			}
-			t.exist, t.whole = true, true
+			t.exist, t.whole, t.old = true, true, fv
 			return t
 		case pgRepeated:
 			if len(t.path) >= wantDepth && r.chance(25) {
@@ -228,7 +256,7 @@ func (g *c10Gen) walk(cur *pgVal, msgName string, wantDepth int) *c10Target {
 				cur, m = fv.Elems[idx], g.c.S.msg(f.MsgName)
 				continue
 			}
-			t.exist = true
+			t.exist, t.old = true, fv.Elems[idx]
 			return t
 		case pgMap:
 			if len(t.path) >= wantDepth && r.chance(20) {
@@ -243,7 +271,7 @@ func (g *c10Gen) walk(cur *pgVal, msgName string, wantDepth int) *c10Target {
 					cur, m = e.V, g.c.S.msg(f.MsgName)
 					continue
 				}
-				t.exist = true
+				t.exist, t.old = true, e.V
 				return t
 			}
 			// a key that is (probably) absent
@@ -467,7 +495,11 @@ func genC10(r *rng, n int) {
 
 		// ---- edit history
 		g := &c10Gen{r: sr, c: c, vg: &pgValGen{r: sr, c: c, budget: 40}}
-		v := generic.NewRootValue(c.Dyn, append([]byte(nil), b0...))
+		// the input slice is handed to the library as it is (NewRootValue does not copy); b0 stays the private copy.
+		// A second root value over the same slice must keep marshalling to the original bytes whatever happens to v.
+		input := append([]byte(nil), b0...)
+		v := generic.NewRootValue(c.Dyn, input)
+		witness := generic.NewRootValue(c.Dyn, input)
 		cur := val
 		nops := 1 + sr.intn(8)
 		var ops []string
@@ -486,7 +518,8 @@ func genC10(r *rng, n int) {
 			var ex bool
 			var oerr error
 			var ok bool
-			prev := append([]byte(nil), v.Raw()...)
+			prevAlias := v.Raw() // the very slice the value holds now
+			prev := append([]byte(nil), prevAlias...)
 			if kind == 3 {
 				// distinct singular root fields, present or absent
 				m := c.S.msg(s.Root)
@@ -511,7 +544,13 @@ func genC10(r *rng, n int) {
 					pns := make([]generic.PathNode, 0, k)
 					opf = append(opf, fi(3), fi(k))
 					for _, f := range cand[:k] {
-						nd, nb := g.subValue(f, 1)
+						var oldv *pgVal
+						for _, p := range cur.Fields {
+							if p.F.Num == f.Num {
+								oldv = p.V
+							}
+						}
+						nd, nb := g.subValue(f, 1, oldv)
 						pns = append(pns, generic.PathNode{Path: generic.NewPathFieldId(proto.FieldNumber(f.Num)), Node: nd})
 						opf = append(opf, fi(int(f.Num)), fx(nb))
 					}
@@ -534,7 +573,7 @@ func genC10(r *rng, n int) {
 				opf = append(opf, fi(kind))
 				opf = append(opf, pf...)
 				if kind == 1 {
-					nd, nb := g.subValue(t.f, t.depth)
+					nd, nb := g.subValue(t.f, t.depth, t.old)
 					opf = append(opf, fx(nb))
 					ok, _ = noPanic(func() { ex, oerr = v.SetByPath(nd, ps...) })
 				} else {
@@ -554,7 +593,9 @@ func genC10(r *rng, n int) {
 					nv = d
 				}
 			}
-			opf = append(opf, fi(c10ErrClass(ok, oerr)), fb(ex), fx(res), fi(acc))
+			var wit []byte
+			noPanic(func() { wit = witness.Raw() })
+			opf = append(opf, fi(c10ErrClass(ok, oerr)), fb(ex), fx(res), fi(acc), fx(input), fx(wit), fx(prevAlias))
 			ops = append(ops, opf...)
 			done++
 			if !ok || acc == 0 {
